@@ -33,9 +33,9 @@ static const std::vector<int> kInteractionElems = {E_TPSpring, E_TPDamper, E_TPC
 // C38: documented laws + parameter changes
 static void lawCompare(Ctx& c, FCase& k, const std::string& keyHead, const std::string& keyTail, const Obs& o, const Ref& ref,
                        const char* route, const Json& hist) {
-    Json wit = k.witness();
+    LazyWit wit{&k};
     auto W = [&](const char* what, double a, double b) {
-        return [=]() { return Json(wit).set("what", what).set("route", route).set("observed", a).set("expected", b).set("history", hist); };
+        return [&, what, a, b]() { return wit.get().set("what", what).set("route", route).set("observed", a).set("expected", b).set("history", hist); };
     };
     double dF = 0; int wb = -1;
     for (int b = 0; b < k.nb; ++b) { double d = spMax(o.F[b] - ref.F[b]); if (!(d <= dF)) { dF = d; wb = b; } }
@@ -151,8 +151,8 @@ static void checkC13(Ctx& c, long idx, Rng& r) {
     // from the net per-body output which may cancel to exactly zero (same body twice)
     double aF = 0, aM = 0; e.actionScale(k, s, haveRef ? &ref : nullptr, aF, aM);
     sF = std::max(sF, aF); sM = std::max(sM, aM);
-    Json wit = k.witness();
-    auto W = [&](const char* what, const Vec3& v) { return [=]() { return Json(wit).set("what", what).set("net", jV3(v)).set("bodyForces", jFs(o.F)); }; };
+    LazyWit wit{&k};
+    auto W = [&](const char* what, const Vec3& v) { return [&, what, v]() { return wit.get().set("what", what).set("net", jV3(v)).set("bodyForces", jFs(o.F)); }; };
     c.require("finite:" + e.name, std::isfinite(sF) && std::isfinite(sM), W("non-finite body force", netF));
     c.check("net-force:" + e.name, netF.norm(), E1 * sF + 1e-300, W("sum of forces over all bodies incl. Ground != 0", netF));
     c.check("net-moment:" + e.name, netM.norm(), E1 * (sM + sF) + 1e-300, W("sum of moments about the Ground origin over all bodies incl. Ground != 0", netM));
@@ -213,9 +213,9 @@ static void checkC12(Ctx& c, long idx, Rng& r) {
     if (!k.setup(c, r, idx, et, attachCls, variant, false)) return;
     Elem& e = *k.elem; State& s = k.s;
     const std::string en = e.name;
-    Json wit = k.witness();
+    LazyWit wit{&k};
     auto judge = [&](const PowerOut& po, int dirIx) -> bool {
-        auto W = [&](const char* what) { return [=]() { return Json(wit).set("what", what).set("P", po.P).set("dPEdt", po.dPE).set("dPEdt_h", po.dPEh).set("reportedDissipation", po.reported).set("direction", dirIx); }; };
+        auto W = [&](const char* what) { return [&, what]() { return wit.get().set("what", what).set("P", po.P).set("dPEdt", po.dPE).set("dPEdt_h", po.dPEh).set("reportedDissipation", po.reported).set("direction", dirIx); }; };
         if (!po.ok) { c.viol("nonfinite:" + en, W(po.why.c_str())()); return false; }
         double tol = E2 * po.scale + 200 * 2.2e-16 * po.peMag / po.h + 1e-300;
         if (e.reportsPE) {
@@ -235,13 +235,13 @@ static void checkC12(Ctx& c, long idx, Rng& r) {
                 // documented exception (CompliantContactSubsystem::getDissipatedEnergy): a body "yanked" out of a
                 // contact gets no force and the elastic energy it leaves behind is not tracked
                 c.obs("yank-out:" + en);
-                c.check("sign:" + en, D, tol, W("force clamped to zero while the potential energy grows"));
+                c.check("energy-" + en + ":sign", D, tol, W("force clamped to zero while the potential energy grows"));
             } else
-                c.check("balance:" + en, std::fabs(D + po.reported), tol, W(dirIx < 0 ? "P + dPE/dt != -(reported power dissipation)" : "generalized force != -dPE/dq*N - reported dissipation"));
-            c.check("sign:" + en, -po.reported, tol, W("reported power dissipation negative"));
-            if (!e.damped) c.check("balance:" + en, std::fabs(po.reported), tol, W("element without damping reports a power dissipation"));
-        } else if (!e.damped) c.check("balance:" + en, std::fabs(D), tol, W(dirIx < 0 ? "P + dPE/dt != 0 for an element without damping" : "generalized force != -dPE/dq*N for an element without damping"));
-        else c.check("sign:" + en, D, tol, W("P + dPE/dt > 0: element creates energy"));
+                c.check("energy-" + en + ":balance", std::fabs(D + po.reported), tol, W(dirIx < 0 ? "P + dPE/dt != -(reported power dissipation)" : "generalized force != -dPE/dq*N - reported dissipation"));
+            c.check("energy-" + en + ":sign", -po.reported, tol, W("reported power dissipation negative"));
+            if (!e.damped) c.check("energy-" + en + ":balance", std::fabs(po.reported), tol, W("element without damping reports a power dissipation"));
+        } else if (!e.damped) c.check("energy-" + en + ":balance", std::fabs(D), tol, W(dirIx < 0 ? "P + dPE/dt != 0 for an element without damping" : "generalized force != -dPE/dq*N for an element without damping"));
+        else c.check("energy-" + en + ":sign", D, tol, W("P + dPE/dt > 0: element creates energy"));
         (void)form;
         return true;
     };
